@@ -1,3 +1,4 @@
+import MpsProps.Anchors.C17
 import MpsProofs.Handler
 import MpsProps.HandlerSrc
 import MpsProofs.TwoParty
